@@ -2,7 +2,7 @@ SPECIFICATION FSpec
 CONSTANTS
   Cfgs <- F_Cfgs
   T = 6
-  MaxFaults = 3
+  MaxFaults = 2
   GradClasses <- F_Grad
   ErrClasses = {"below", "atabove", "nan", "inf"}
 INVARIANT Emit
